@@ -89,7 +89,10 @@ def listener_lists(repo: Repo, cls: str) -> Dict[str, str]:
             val = n.value
             if isinstance(tgt, ast.Attribute) and isinstance(val, ast.Constant) and val.value is None:
                 roles.setdefault("awaiting", tgt.attr)
-    for r in ("entries", "defstack", "classstack", "consumed", "awaiting"):
+    for r in ("entries", "defstack", "classstack", "awaiting"):
         if r not in roles:
             raise AnalysisError(f"anchor vanished: cannot identify the '{r}' attribute of {cls}")
+    # the consumed set is optional: a listener may track handled commands differently (the protocol rules then see whatever
+    # it uses as an extra state atom)
+    roles.setdefault("consumed", "__no_consumed_list__")
     return roles
